@@ -15,6 +15,7 @@ import (
 
 	"verif/mc"
 	"verif/ref/qr"
+	"verif/ref/twin"
 )
 
 // specialData returns the data codewords (header included) of the special payload and the text.
@@ -43,6 +44,42 @@ func specialData(v int, lv qr.Level, kind int) (text string, payload []byte, ok 
 		return "", nil, false
 	}
 	data := append([]byte{}, header...)
+	if kind >= 4 {
+		// near-twin blocks (see verif/ref/twin): the second block is the first one - header bytes
+		// included, they are ordinary text bytes there - changed by difference (kind-4)/3 at the
+		// start / middle / end; with three or more blocks the last block is made a twin of the one
+		// before it as well
+		if len(sizes) < 2 {
+			return "", nil, false
+		}
+		d := twin.Diffs()[(kind-4)/3]
+		pl := (kind - 4) % 3
+		pairs := [][2]int{{0, 1}}
+		if len(sizes) >= 3 {
+			pairs = append(pairs, [2]int{len(sizes) - 2, len(sizes) - 1})
+		}
+		for _, pr := range pairs {
+			a, c := pr[0], pr[1]
+			n := sizes[a]
+			if m := sizes[c]; m < n {
+				n = m
+			}
+			// blocks are laid out one after the other in the data stream (data part only)
+			da, dc := dataStart(sizes, a), dataStart(sizes, c)
+			tw := append([]byte{}, data[da:da+n]...)
+			p := []int{0, n/2 - 2, n - 5}[pl]
+			if p < 0 || p+5 > n || !d.Apply(tw, p) {
+				return "", nil, false
+			}
+			copy(data[dc:dc+n], tw)
+		}
+		copy(payload, data[hdr:])
+		rs := make([]rune, n)
+		for i, c := range payload {
+			rs[i] = rune(c)
+		}
+		return string(rs), payload, true
+	}
 	off := 0
 	for b, sz := range sizes {
 		blk := data[off : off+sz]
@@ -77,6 +114,15 @@ func specialData(v int, lv qr.Level, kind int) (text string, payload []byte, ok 
 	return string(rs), payload, true
 }
 
+// dataStart is the offset of block b's data codewords in the (un-interleaved) data codeword stream.
+func dataStart(sizes []int, b int) int {
+	off := 0
+	for i := 0; i < b; i++ {
+		off += sizes[i]
+	}
+	return off
+}
+
 func runSpecialParity() {
 	type job struct{ v, li int }
 	var jobs []job
@@ -85,12 +131,12 @@ func runSpecialParity() {
 			jobs = append(jobs, job{v, li})
 		}
 	}
-	chk.Range("Encoder_encode on algebraically special payloads: all 160 (version,level), ISO-8859-1 text of exactly the capacity chosen so that the Reed-Solomon parity is ALL ZERO in every block / in the first block only / in the last block only, or starts with a zero byte in every block; one mask = (version+level) mod 8; library matrix == reference matrix", len(jobs),
+	chk.Range("Encoder_encode on algebraically special payloads: all 160 (version,level), ISO-8859-1 text of exactly the capacity chosen so that the Reed-Solomon parity is ALL ZERO in every block / in the first block only / in the last block only, or starts with a zero byte in every block; and NEAR-TWIN blocks (second block = first block, last = last but one, changed by a difference invisible to CRC-32 x3 / byte sum + Adler-32 / xor / order / the ends, at the start, middle and end of the block); one mask = (version+level) mod 8; library matrix == reference matrix", len(jobs),
 		func(i int) string { return fmt.Sprint(jobs[i]) },
 		func(l *mc.Local, i int) {
 			j := jobs[i]
 			lv := levels[j.li]
-			for kind := 0; kind < 4; kind++ {
+			for kind := 0; kind < 4+3*len(twin.Diffs()); kind++ {
 				c := mxCase{Kind: "encode", V: j.v, Level: lv.name, Mask: (j.v + j.li) % 8, Family: famNames[famByteECI], Len: capOf(famByteECI, j.v, lv.ref), Pat: 2000 + kind}
 				if _, _, ok := specialData(j.v, lv.ref, kind); !ok {
 					l.Count("special_parity_not_constructible", 1)
